@@ -1,14 +1,22 @@
 ------------------------ MODULE Trace_Positions ------------------------
-(* Code -> spec for C17.  A trace = what the real jedi reported about one buffer:
-     event 1     [ev |-> "files", files |-> <<[text, starts]>>]  the analysed buffer (file 1) and the
-                 project files the results point into, as code points, with the line table the
-                 harness claims (checked here against the Reference rule LineStarts);
+(* Code -> spec for C17.  A trace = what the real jedi reported about one buffer / during one
+   history of a project:
+     event 1     [ev |-> "files", files |-> <<[vers |-> <<[text, starts]>>]>>]  the analysed buffer
+                 (file 1) and the project files the results point into, as code points, with the line
+                 table the harness claims (checked here against the Reference rule LineStarts).
+                 A file has VERSIONS: vers[1] is what exists when the trace starts, further ones
+                 come into existence by "write" / "buffer" events;
+     "write"     [f, v]: version v of file f is written to disk;
+     "buffer"    [f, v]: version v of file f is analysed as an unsaved buffer (Script(code, path));
      "name"      one reported Name/Completion/Signature/param:
-                 [f, line, col, name, ds, de, lc] (ds/de = <<>> for None, else <<<<l, c>>>>);
+                 [f, line, col, name, ds, de, lc, exact] (ds/de = <<>> for None, else <<<<l, c>>>>);
+                 exact = <<v>>: reported by the Script whose own buffer is version v of f (the text
+                 must be exactly that one), exact = <<>>: f was reached from another file -- ONE of
+                 the versions of f that existed so far must satisfy all clauses (PositionsHist.tla);
      "names"     one Script.get_names(all_scopes=True, definitions=True, references=True) call:
                  toks = identifier tokens per CPython's tokenizer with binds per CPython's ast
                  (logged ground truth), got = <<[line, col, isdef]>> as reported.
-   Every event is judged by the Reference clauses of Positions.tla.                         *)
+   Every event is judged by the Reference clauses of PositionsText.tla.                         *)
 EXTENDS Naturals, Sequences, FiniteSets, TLC, Json, IOUtils
 
 CONSTANTS TplLo, TplHi, SecondTpls, MaxStmts, MaxMods1, MaxMods2, NNames, StripDunder, EmitMod, EmitRem
@@ -23,11 +31,26 @@ Files(t) == Traces[t][1].files
 StartsOK(t, st) == /\ Len(st) >= 1 /\ st[1] = 0
                    /\ \A k \in 1..(Len(st) - 1) : st[k] < st[k + 1]
                    /\ {st[k] : k \in 1..Len(st)} = LineStarts(t)
+VARIABLE seen     \* <<f, v>>: version v of file f existed so far
+\* the versions a reported name may stand for
+Cands(t, e) == IF e.exact # <<>> THEN {v \in {e.exact[1]} : v \in 1..Len(Files(t)[e.f].vers)}
+               ELSE {v \in 1..Len(Files(t)[e.f].vers) : <<e.f, v>> \in seen}
+WhyVer(t, e, v) == LET ver == Files(t)[e.f].vers[v] IN NameWhy(ver.text, ver.starts, e)
+WhyName(t, e) ==
+  LET cs == Cands(t, e) IN
+  IF cs = {} THEN {"NoSuchVersion"}
+  ELSE IF \E v \in cs : WhyVer(t, e, v) = {} THEN {}
+  ELSE IF Cardinality(cs) = 1 THEN WhyVer(t, e, CHOOSE v \in cs : TRUE)
+  \* no single version fits; the clauses that fail whichever version is taken are named too
+  ELSE {"OneVersion"} \cup {c \in {"TextAtPos", "RangeEncloses", "LineCodeOK"} : \A v \in cs : c \in WhyVer(t, e, v)}
 Why(t, e) ==
-  IF e.ev = "files" THEN (IF \A k \in 1..Len(e.files) : StartsOK(e.files[k].text, e.files[k].starts)
+  IF e.ev = "files" THEN (IF \A k \in 1..Len(e.files) : \A v \in 1..Len(e.files[k].vers) :
+                                StartsOK(e.files[k].vers[v].text, e.files[k].vers[v].starts)
                           THEN {} ELSE {"LineTable"})
-  ELSE IF e.ev = "name" THEN
-       (IF e.f \in 1..Len(Files(t)) THEN NameWhy(Files(t)[e.f].text, Files(t)[e.f].starts, e) ELSE {"NoSuchFile"})
+  ELSE IF e.ev = "name" THEN (IF e.f \in 1..Len(Files(t)) THEN WhyName(t, e) ELSE {"NoSuchFile"})
+  ELSE IF e.ev \in {"write", "buffer"} THEN
+       (IF e.f \in 1..Len(Files(t)) THEN (IF e.v \in 1..Len(Files(t)[e.f].vers) THEN {} ELSE {"NoSuchVersion"})
+        ELSE {"NoSuchFile"})
   ELSE IF e.ev = "names" THEN
        (IF ClBijection(e.toks, e.got) THEN {} ELSE {"NamesBijection"})
        \cup (IF ClIsDef(e.toks, e.got) THEN {} ELSE {"IsDefOK"})
@@ -35,11 +58,13 @@ Why(t, e) ==
 
 VARIABLE nbad     \* events of this trace that failed so far (every event is judged, not only the first failure)
 TInit == /\ tid \in 1..Len(Traces) /\ l = 1 /\ nbad = 0
+         /\ seen = {<<f, 1>> : f \in 1..Len(Files(tid))}
          /\ stmts = <<>> /\ mods = {} /\ tabs = FALSE /\ final = TRUE /\ lay = <<>> /\ out = <<>>
 Ev == Traces[tid][l]
 TNext == /\ l <= Len(Traces[tid])
          /\ l' = l + 1
          /\ nbad' = IF Why(tid, Ev) = {} THEN nbad ELSE nbad + 1
+         /\ seen' = IF Ev.ev \in {"write", "buffer"} THEN seen \cup {<<Ev.f, Ev.v>>} ELSE seen
          /\ UNCHANGED <<tid, stmts, mods, tabs, final, lay, out>>
 \* always TRUE; prints the verdicts
 Verdict ==
